@@ -14,6 +14,13 @@ def monitor(cfg, op, o):
         return [("initial-liquidity-on-funded-pool", f"{op} succeeded although the LP supply was {o['pre']['S']}; supply now {o['S']}, reserves {(o['r1'], o['r2'])}")]
     out = []
     pre = o["pre"]
+    if op[0] == "Remove" and o.get("view_pos") is not None and pre["S"] > 0:
+        lp = op[2]
+        want = [lp * pre["r1"] // pre["S"], lp * pre["r2"] // pre["S"]]
+        if o["view_pos"] != want:
+            out.append(("position-view-formula", f"getTokensForGivenPosition({lp}) = {o['view_pos']}, floor(lp*reserve/S) = {want} (reserves {(pre['r1'], pre['r2'])}, S {pre['S']})"))
+        if o["ok"] and o["outs"][:2] != o["view_pos"]:
+            out.append(("position-view-vs-remove", f"{op}: removeLiquidity paid {o['outs'][:2]}, the view quoted {o['view_pos']}"))
     if o["S"] > 0 and (o["S"] < MINLIQ or o["lp"][0] < MINLIQ):
         out.append(("locked-floor", f"after {op}: LP supply {o['S']}, pair holds {o['lp'][0]} (floor {MINLIQ})"))
     if not o["ok"]:
